@@ -30,7 +30,7 @@ META = {
 }
 
 
-def build_docs(rng, n_create, n_delete, n_other, n_replace, two_ids, dup_ids=False):
+def build_docs(rng, n_create, n_delete, n_other, n_replace, two_ids, dup_ids=False, completed_create=False):
     docs = []
     mid = [0]
 
@@ -41,6 +41,10 @@ def build_docs(rng, n_create, n_delete, n_other, n_replace, two_ids, dup_ids=Fal
     for k in range(n_create):
         docs.append(gen.grid_ro(['A', 'B'], 'none').replace('<messageID>1</messageID>',
                                                               '<messageID>%d</messageID>' % nxt()))
+        if completed_create:
+            # a completed running order that was written out (it carries the record of ITS roDelete: that
+            # record is content of the document, not a roDelete message of the list)
+            docs[-1] = docs[-1].replace('</mos>', '<mosromgrmeta><roDelete><roID>RO</roID></roDelete></mosromgrmeta></mos>')
     for k in range(n_other):
         kind = rng.choice(['roStoryAppend', 'roReadyToAir', 'roMetadataReplace', 'EAStoryDelete', 'roStorySend'])
         if kind == 'roStoryAppend':
@@ -126,7 +130,8 @@ def run(s):
                 if not s.mine(idx):
                     continue
                 rng = s.rng('grid', n_c, n_d, n_o, n_r, two)
-                docs = build_docs(rng, n_c, n_d, n_o, n_r, two, dup_ids=(idx % 3 == 0))
+                docs = build_docs(rng, n_c, n_d, n_o, n_r, two, dup_ids=(idx % 3 == 0), completed_create=(idx % 7 == 5))
+                s.hist['lists_with_a_completed_roCreate'] += int(idx % 7 == 5 and n_c > 0)
                 if order:
                     docs = list(reversed(docs))
                 hows = (('strings', 'files', 's3')[idx % 3],) if q else ('strings', 'files', 's3')
